@@ -189,17 +189,36 @@ def run_check(pid, tier, seed, jobs):
     else:
         import multiprocessing as mp
 
+        import signal
+
         ctx = mp.get_context("fork")
+        max_wall = int(os.environ.get("VERIF_MAX_WALL", "10800"))
+
+        class _WallClock(Exception):
+            pass
+
+        def _on_alarm(signum, frame):
+            raise _WallClock()
+
         with ctx.Pool(min(jobs, len(shards)), initializer=_worker_init) as pool:
             work = [(modname, shards[i]) for i in order]
-            for i, (status, res) in zip(
-                order, pool.imap(_worker_run, work, chunksize=1)
-            ):
-                if status == "error":
-                    errors.append(res)
-                    pool.terminate()
-                    break
-                results[i] = res
+            old = signal.signal(signal.SIGALRM, _on_alarm)
+            signal.alarm(max_wall)
+            try:
+                for i, (status, res) in zip(
+                    order, pool.imap(_worker_run, work, chunksize=1)
+                ):
+                    if status == "error":
+                        errors.append(res)
+                        pool.terminate()
+                        break
+                    results[i] = res
+            except _WallClock:
+                errors.append("no result within VERIF_MAX_WALL=%d s (a worker is stuck)" % max_wall)
+                pool.terminate()
+            finally:
+                signal.alarm(0)
+                signal.signal(signal.SIGALRM, old)
     if errors:
         print("HARNESS-ERROR property=%s\n%s" % (pid, errors[0]), file=sys.stderr)
         return 2
